@@ -117,6 +117,16 @@ def rand_tree(rng, depth=0, parent=""):
     return out
 
 
+def dir_paths(tree, prefix=""):
+    """relative paths of the real directories of a generated tree"""
+    out = []
+    for name, node in tree:
+        if node[0] == "d":
+            out.append(prefix + name)
+            out.extend(dir_paths(node[1], prefix + name + "/"))
+    return out
+
+
 class NameStream(Stream):
     name = "names"
     exhaustive = True
@@ -195,9 +205,14 @@ class TreeStream(Stream):
         for i in range(n):
             cmds = i % 10 == 0
             tree = rand_tree(rng)
+            case = {"tree": tree, "flags": rng.choice(["00", "01", "10", "11"]), "cmds": cmds}
             if cmds:
-                tree = self._sane_licenses(tree)
-            yield {"tree": tree, "flags": rng.choice(["00", "01", "10", "11"]), "cmds": cmds}
+                case["tree"] = tree = self._sane_licenses(tree)
+                # `annotate --recursive DIR` for up to three directories of the tree, excluded ones (LICENSES, .reuse,
+                # subprojects/x, .hg) included: exactly the covered files below DIR may be touched
+                dirs = dir_paths(tree)
+                case["rdirs"] = rng.sample(dirs, min(3, len(dirs)))
+            yield case
 
     @staticmethod
     def _sane_licenses(tree):
@@ -244,6 +259,18 @@ class TreeStream(Stream):
                     if before.get(k) != after.get(k):
                         touched.add(k[:-len(".license")] if k.endswith(".license") and k not in before else k)
                 extra = "|lint=%s|spdx=%s|annot=%s" % (";".join(lint_files), ";".join(spdx_files), ";".join(sorted(touched)))
+        for d in case.get("rdirs", []):
+            with cli.scratch("rv-c03r-") as root:
+                materialise(root, tree)
+                before = cli.snapshot(root)
+                cli.run_cli(opts + ["annotate", "-c", "Jane", "-l", "MIT", "--recursive", "--fallback-dot-license", d], root)
+                after = cli.snapshot(root)
+                touched = set()
+                for k in set(before) | set(after):
+                    if before.get(k) != after.get(k):
+                        touched.add(k[:-len(".license")] if k.endswith(".license") and k not in before else k)
+                extra += "|annot:%s=%s" % (enc(d), ";".join(sorted(touched)))
+        if True:
             return ";".join(got) + extra
 
     def model_lines(self, case):
@@ -269,6 +296,12 @@ class TreeStream(Stream):
             return "covered-set-differs: examined but excluded by the property %s; covered but skipped %s" % (sorted(a - b), sorted(b - a))
         for e in extras:
             k, v = e.split("=", 1)
+            if k.startswith("annot:"):
+                d = dec(k[len("annot:"):])
+                below = ";".join(p for p in want.split(";") if p.startswith(d + "/"))
+                if v != below:
+                    return "recursive-set-differs: `annotate --recursive %s` touched %s, the covered files below it are %s" % (d, v, below)
+                continue
             if v != want:
                 return "command-set-differs: %s considers %s, covered files are %s" % (k, v, want)
         return None
@@ -296,16 +329,17 @@ class TreeStream(Stream):
 _orig_model_out = TreeStream.model_out
 
 
-def _git(args, cwd, input=None):
+def _git(args, cwd, input=None, global_config="/dev/null"):
     return subprocess.run(["git"] + args, cwd=cwd, capture_output=True, input=input,
-                          env={**os.environ, "GIT_CONFIG_GLOBAL": "/dev/null", "GIT_CONFIG_SYSTEM": "/dev/null",
+                          env={**os.environ, "GIT_CONFIG_GLOBAL": global_config, "GIT_CONFIG_SYSTEM": "/dev/null",
                                "GIT_AUTHOR_NAME": "t", "GIT_AUTHOR_EMAIL": "t@e", "GIT_COMMITTER_NAME": "t", "GIT_COMMITTER_EMAIL": "t@e"})
 
 
 class GitStream(Stream):
     name = "git"
     rule = ("random trees inside a Git repository with generated .gitignore hierarchies (globs, directory rules, negations), files "
-            "tracked / untracked / ignored, a manual submodule and subprojects/, four flag combinations: real Project.all_files vs the "
+            "tracked / untracked / ignored, a manual submodule and subprojects/, in 40 % of the cases a user-level ignore file "
+            "(core.excludesFile of the user's global Git configuration, outside the repository), four flag combinations: real Project.all_files vs the "
             "model walk fed `git check-ignore` answers vs the oracle; non-trivial = some file ignored by Git and some covered")
     IGN = ["*.o", "build/", "/docs/gen.txt", "!keep.o", "tmp*", "src/*.log", "**/cache/", "*.tmp"]
     NAMES = ["a.c", "b.o", "keep.o", "gen.txt", "tmp1", "x.log", "y.tmp", "README", "LICENSE", "z.py"]
@@ -337,12 +371,34 @@ class GitStream(Stream):
         ign_sub = rng.sample(self.IGN, rng.randint(0, 2))
         return t, ign_root, ign_sub, rng
 
+    UIGN = ["*.log", "README", "tmp*", "z.py", "lib/", "*.c"]
+
+    def _user_ignore(self, case):
+        """patterns of the user's own ignore file (core.excludesFile in the global configuration), or None; drawn from a
+        separate generator so that the trees of older seeds stay what they were"""
+        import random
+        r = random.Random(case["seed"] ^ 0x5EED)
+        if r.random() < 0.6:
+            return None
+        return r.sample(self.UIGN, r.randint(1, 3))
+
     def impl(self, case):
         from reuse.project import Project
         import logging
         t, ign_root, ign_sub, rng = self._gen(case)
         flags = case["flags"]
-        with cli.scratch("rv-c03g-") as root:
+        uign = self._user_ignore(case)
+        with cli.scratch("rv-c03g-") as top:
+            root = os.path.join(top, "repo")
+            os.makedirs(root)
+            gconf = "/dev/null"
+            if uign is not None:
+                os.makedirs(os.path.join(top, "home"))
+                gconf = os.path.join(top, "home", "gitconfig")
+                with open(os.path.join(top, "home", "ignore"), "w") as fp:
+                    fp.write("\n".join(uign) + "\n")
+                with open(gconf, "w") as fp:
+                    fp.write("[core]\n\texcludesFile = %s\n" % os.path.join(top, "home", "ignore"))
             materialise(root, t)
             with open(os.path.join(root, ".gitignore"), "w") as fp:
                 fp.write("\n".join(ign_root) + "\n")
@@ -370,19 +426,27 @@ class GitStream(Stream):
                 elif r < 0.6:
                     _git(["add", "-f", "--", f], root)
             logging.disable(logging.CRITICAL)
+            saved_env = {k: os.environ.get(k) for k in ("GIT_CONFIG_GLOBAL", "GIT_CONFIG_SYSTEM")}
+            os.environ["GIT_CONFIG_GLOBAL"] = gconf      # the user's configuration as the tool's Git finds it
+            os.environ["GIT_CONFIG_SYSTEM"] = "/dev/null"
             try:
                 with cli.chdir(root):
                     project = Project.from_directory(root, include_submodules=flags[0] == "1", include_meson_subprojects=flags[1] == "1")
                     got = sorted(os.path.relpath(str(p), root) for p in project.all_files())
             finally:
                 logging.disable(logging.NOTSET)
+                for k, v in saved_env.items():
+                    if v is None:
+                        os.environ.pop(k, None)
+                    else:
+                        os.environ[k] = v
             # Git's own verdict for every path (files and directories)
             paths = []
             for dp, dn, fn in os.walk(root):
                 dn[:] = [d for d in dn if d != ".git"]
                 for x in dn + fn:
                     paths.append(os.path.relpath(os.path.join(dp, x), root))
-            r = _git(["check-ignore", "--stdin", "-z"], root, input=("\0".join(paths)).encode())
+            r = _git(["check-ignore", "--stdin", "-z"], root, input=("\0".join(paths)).encode(), global_config=gconf)
             ignored = sorted(x for x in r.stdout.decode().split("\0") if x)
             # full tree as it is on disk (including .gitignore, .gitmodules)
             def read(d):
@@ -449,7 +513,7 @@ class GitStream(Stream):
 
     def show(self, case):
         t, ign_root, ign_sub, _ = self._gen(case)
-        return {"tree": t, "gitignore": ign_root, "src/.gitignore": ign_sub, "flags": case["flags"]}
+        return {"tree": t, "gitignore": ign_root, "src/.gitignore": ign_sub, "flags": case["flags"], "user_ignore_file": self._user_ignore(case)}
 
 
 class TreeStreamCmp(TreeStream):
@@ -458,7 +522,11 @@ class TreeStreamCmp(TreeStream):
     def model_out(self, case, outs):
         base = ";".join(sorted(dec_list(outs[0])))
         if case.get("cmds"):
-            return base + "|lint=%s|spdx=%s|annot=%s" % (base, base, base)
+            out = base + "|lint=%s|spdx=%s|annot=%s" % (base, base, base)
+            # C03_recursive: `--recursive DIR` = the covered files of the one walk that lie below DIR
+            for d in case.get("rdirs", []):
+                out += "|annot:%s=%s" % (enc(d), ";".join(p for p in base.split(";") if p.startswith(d + "/")))
+            return out
         return base
 
 
